@@ -2,7 +2,7 @@
    recursion arithmetic of the code that consumes untrusted bytes).
    Statements only; proofs are `exact` of lemmas in coq/C05/. *)
 From Coq Require Import ZArith List Bool Arith.
-From GD Require Import C05.Recurse C05.RecurseProofs C05.SieRead C05.SieReadProofs C05.GetIndex C05.LzmaWindow C05.LzmaWindowProofs.
+From GD Require Import C05.Recurse C05.RecurseProofs C05.SieRead C05.SieReadProofs C05.GetIndex C05.LzmaWindow C05.LzmaWindowProofs C05.BzipWindow C05.BzipWindowProofs.
 Import ListNotations.
 
 (* --- circular / over-deep field definitions ------------------------------ *)
@@ -102,6 +102,94 @@ Proof. exact lzma_seek_spec. Qed.
 Theorem lzma_decoder_contract_satisfiable :
   forall DOUT L s nreq, Inv DOUT L s -> ok_resp DOUT L s nreq (full_orc DOUT L s nreq).
 Proof. exact full_orc_ok. Qed.
+
+(* --- bzip2 decode window (src/bzip.c) ---------------------------------------- *)
+(* _GD_Bzip2Read, for every buffer size, sample size, stream, decoder behaviour within
+   BZ2_bzRead's contract, reachable window state and request: it copies one contiguous
+   run of the stream starting at the cursor, never more than the caller's buffer holds
+   and never from outside the decoded bytes; when it completes it has delivered
+   min(request, rest of the stream), returns the whole samples in that, and leaves
+   file->pos at the cursor; it cannot spin (fuel = buffers left in the stream + 1) *)
+Theorem bzip2_read_returns_contiguous_stream_bytes :
+  forall CAP size L orc, 0 < size -> 0 < CAP -> 0 <= L ->
+    (forall s, BInv CAP L s -> ok_bzresp CAP L s (orc s)) ->
+    forall fuel s nmemb, BInv CAP L s -> 0 <= nmemb ->
+    let '(s', n, out, st) := bz_read size orc fuel s nmemb in
+    BInv CAP L s' /\ bchain (bcursor s) out (bcursor s') /\ btotal out <= nmemb * size /\
+    bcursor s' = bcursor s + btotal out /\ bcursor s' <= L /\
+    (st = BzDone ->
+       btotal out = Z.min (nmemb * size) (L - bcursor s) /\ n = btotal out / size /\
+       bfpos s' = bcursor s' / size) /\
+    (L - bdpos s < Z.of_nat fuel * CAP -> st <> BzFuel).
+Proof. exact bz_read_uniform. Qed.
+
+(* _GD_Bzip2Seek (read mode): forward, inside the window, or backward with a restart of
+   the stream, it leaves a consistent window (also when the decoder fails half way) with
+   the cursor on the target byte or at the end of a shorter stream, and terminates *)
+Theorem bzip2_seek_lands_on_target_or_end :
+  forall CAP size L orc, 0 < size -> 0 < CAP -> 0 <= L ->
+    (forall s, BInv CAP L s -> ok_bzresp CAP L s (orc s)) ->
+    forall fuel s offset, BInv CAP L s -> 0 <= offset ->
+    let '(s', r, st) := bz_seek size orc fuel s offset in
+    (st <> BzFuel -> BInv CAP L s') /\
+    (st = BzDone -> r = bfpos s' /\
+       (s' = s /\ bfpos s = offset \/
+        bcursor s' = Z.min (offset * size) L /\ bfpos s' = bcursor s' / size)) /\
+    (L + CAP < Z.of_nat fuel * CAP -> st <> BzFuel).
+Proof. exact bz_seek_uniform. Qed.
+
+Theorem bzip2_seek_reports_sample_or_stream_end :
+  forall CAP size L orc, 0 < size -> 0 < CAP -> 0 <= L ->
+    (forall s, BInv CAP L s -> ok_bzresp CAP L s (orc s)) ->
+    forall fuel s offset, BInv CAP L s -> 0 <= offset -> bfpos s = bcursor s / size ->
+    let '(s', r, st) := bz_seek size orc fuel s offset in
+    st = BzDone -> r = Z.min offset (L / size) /\ bfpos s' = r.
+Proof. exact bz_seek_reports_uniform. Qed.
+
+(* file->pos follows the cursor after ANY outcome of a read or a seek, a decoder error
+   included (the window is emptied at the decoder's position: a failing BZ2_bzRead may
+   have overwritten the buffer), so the nothing-to-do shortcut of the next seek is sound *)
+Theorem bzip2_file_pos_tracks_cursor_after_any_outcome :
+  forall CAP size L orc, 0 < size -> 0 < CAP -> 0 <= L ->
+    (forall s, BInv CAP L s -> ok_bzresp CAP L s (orc s)) ->
+    forall fuel s, BInv CAP L s -> bfpos s = bcursor s / size ->
+    (forall nmemb, 0 <= nmemb ->
+       let '(s', _, _, st) := bz_read size orc fuel s nmemb in
+       st <> BzFuel -> bfpos s' = bcursor s' / size) /\
+    (forall offset, 0 <= offset ->
+       let '(s', _, st) := bz_seek size orc fuel s offset in
+       st <> BzFuel -> bfpos s' = bcursor s' / size).
+Proof. exact bz_fpos_tracks_cursor. Qed.
+
+(* _GD_Bzip2Size reports the whole samples of the stream and terminates *)
+Theorem bzip2_size_is_stream_length :
+  forall CAP size L orc, 0 < CAP -> 0 <= L ->
+    (forall s, BInv CAP L s -> ok_bzresp CAP L s (orc s)) ->
+    forall fuel,
+    (forall r, fst (bz_size size orc fuel) = Some r -> r = L / size) /\
+    (L < Z.of_nat fuel * CAP -> snd (bz_size size orc fuel) <> BzFuel).
+Proof. exact bz_size_uniform. Qed.
+
+(* _GD_Bzip2Seek (write mode) pads with exactly the missing number of zero bytes, in
+   pieces of at most one buffer, ends on the target, and its loop terminates *)
+Theorem bzip2_write_seek_pads_exactly :
+  forall CAP size, 0 < size -> 0 < CAP ->
+    forall fuel w offset, WInv size w -> wfpos w <= offset ->
+    (offset - wfpos w) * size + CAP <= Z.of_nat fuel * CAP ->
+    exists pad, bz_wseek CAP size fuel w offset =
+                  ({| wbase := offset * size; wfpos := offset; wout := wout w ++ pad |}, BzDone)
+                /\ wallpad CAP pad /\ wzeros pad = (offset - wfpos w) * size.
+Proof. exact bz_wseek_uniform. Qed.
+
+Theorem bzip2_decoder_contract_satisfiable :
+  forall CAP L eager s, 0 < CAP -> BInv CAP L s -> ok_bzresp CAP L s (bz_full_orc CAP L eager s).
+Proof. exact bz_full_orc_ok. Qed.
+
+Example bzip2_window_example :
+  let '(s1, r, st) := bz_seek 4 (bz_full_orc 16 103 false) 40 bfresh 20 in
+  let '(s2, n, out, st2) := bz_read 4 (bz_full_orc 16 103 false) 40 s1 10 in
+  BInv 16 103 s1 /\ r = 20 /\ st = BzDone /\ n = 5 /\ btotal out = 23 /\ st2 = BzDone /\ bcursor s2 = 103.
+Proof. vm_compute. repeat split; try discriminate; try reflexivity. Qed.
 
 (* --- LINTERP table index --------------------------------------------------- *)
 Local Close Scope Z_scope.
